@@ -25,7 +25,15 @@ for d in sorted(glob.glob(os.path.join(V, "seeded", "C*_*"))):
             ob = j.get("obligation", "")
             cex = j.get("counterexample")
             if ob.startswith("replay:") or ob.startswith("standin:"):
-                how = "replay on the real crate (deductive check inconclusive: %s)" % ("bounded stand-in" if ob.startswith("standin") else "anchor lost / unsupported construct")
+                vo = str(j.get("verifier_output", "")) + out
+                if ob.startswith("standin"): why = "bounded stand-in"
+                elif "does not compile" in vo: why = "deductive check inconclusive: the annotations no longer fit the restructured code"
+                elif "is not supported" in vo or "UNSUPPORTED" in vo: why = "deductive check inconclusive: construct outside the extraction rules"
+                elif "auxiliary obligation failed" in vo: why = "deductive check inconclusive: only a bookkeeping (aux) obligation failed"
+                elif "ANCHOR" in vo or "anchor" in vo: why = "deductive check inconclusive: text / loop anchor lost"
+                elif "candidate" in vo: why = "degraded anchor matching: failed obligation confirmed by replay"
+                else: why = "deductive check inconclusive"
+                how = "replayed failing input on the real crate (%s)" % why
                 detail = "%s -> %s" % (cex.get("case"), cex.get("failure"))
             else:
                 how = "failed obligation " + ob + (" + replayed failing input" if cex and cex.get("case") else " (no-failing-input-found)")
